@@ -10,5 +10,8 @@ THEOREMS = {
     "C01": FACTS + ODO,
     "C02": FACTS + ODO,
     "C06": FACTS + ODO,
-    "C07": FACTS,
+    "C07": FACTS + [("QuartzModel.Theorems.C07", "Cron." + t) for t in [
+        "parse_wellFormed", "newTrigger_wellFormed", "parseField_inRange", "parseField_no_special", "parseDom_shape",
+        "parseDow_shape", "C07_rejects_field_count", "C07_rejects_both_days", "C07_rejects_bad_step", "C07_macros",
+        "C07_whitespace", "C07_missing_year"]],
 }
